@@ -161,6 +161,7 @@ type SrvFid struct {
 	sync.Mutex
 	fid       uint32
 	refcount  int
+	destroyed bool        // FidDestroy was reported
 	opened    bool        // True if the SrvFid is opened
 	Fconn     *Conn       // Connection the SrvFid belongs to
 	Omode     uint8       // Open mode (O* flags), if the fid is opened
@@ -502,6 +503,14 @@ func (fid *SrvFid) DecRef() {
 	fid.Lock()
 	fid.refcount--
 	n := fid.refcount
+	if n == 0 {
+		/* a fid is destroyed once, even if a request that was creating it when the
+		 * connection closed takes and drops a reference afterwards */
+		if fid.destroyed {
+			n = -1
+		}
+		fid.destroyed = true
+	}
 	fid.Unlock()
 
 	if n != 0 {
